@@ -44,6 +44,18 @@ def faults? (s : String) : Option (List Fault) :=
 def flipBit (h : Bytes) (bit : Nat) : Bytes :=
   h.mapIdx fun i c => if i == bit / 8 then c ^^^ (UInt8.ofNat (1 <<< (bit % 8))) else c
 
+/-- Flat bytes of a served tile as the list of "hashes" the hand model sees, for a tile of nominal width `w`: the
+    whole 32-byte chunks, then the ragged tail if there is one, and one empty element more if that list happened to
+    have `w` elements. So `flatten (ofRaw w b) = b` (the regenerated code, which works on flat bytes, sees exactly `b`)
+    and `(ofRaw w b).length = w ↔ b.length = w * 32` (the model's `widthsOk` stands for the byte-length check). -/
+def ofRaw (w : Nat) (b : Bytes) : List Bytes :=
+  let q := b.length / 32
+  let full := (List.range q).map fun i => (b.drop (32 * i)).take 32
+  if b.length % 32 == 0 then full
+  else
+    let l := full ++ [b.drop (32 * q)]
+    if l.length == w then l ++ [[]] else l
+
 def applyFault (store : List Bytes) (t : Tile) (d : Option (List Bytes)) (f : Fault) : Option (List Bytes) :=
   match d with
   | none => none
@@ -63,6 +75,9 @@ def applyFault (store : List Bytes) (t : Tile) (d : Option (List Bytes)) (f : Fa
       match d with
       | [] => some d
       | x :: _ => some (d ++ List.replicate f.a x)
+    -- ragged length (bytes, not whole hashes); the generator puts these after the whole-hash kinds
+    | "extb" => some (ofRaw t.w (d.flatten ++ (List.range f.a).map fun i => UInt8.ofNat (f.b + i)))
+    | "truncb" => some (ofRaw t.w (d.flatten.take (d.flatten.length - f.a)))
     | "repl" => trueTile store { t with l := f.a, n := f.b }
     | "miss" => none
     | _ => some d
